@@ -52,6 +52,8 @@ type Gen struct {
 	open    []int // split uploads in flight: op numbers
 	burst   int   // syncer steps to take in a row
 	openSt  map[int]string
+	// an upload was placed inside the first data sync of a shutdown
+	windowPut bool
 }
 
 func NewGen(rnd *hx.Rand, o Opts) *Gen { return &Gen{rnd: rnd, o: o, openSt: map[int]string{}} }
@@ -81,6 +83,13 @@ func (g *Gen) Next(r *Runner) []string {
 			continue
 		}
 		sync = append(sync, e)
+	}
+	// the window in which a shutting-down store still accepts uploads: the first data sync after
+	// the shutdown request is running (NotifySyncStarting(false) done, NotifySyncStarting(true) not yet)
+	if r.cancelled && r.g1pc == "syncing" && !r.g1final && !g.windowPut && rnd.Chance(1, 2) {
+		g.windowPut = true
+		op, obj, size := g.newPut(r)
+		return []string{fmt.Sprintf("put.begin %d %d %d", op, obj, size), fmt.Sprintf("put.copy %d", op), fmt.Sprintf("put.end %d", op)}
 	}
 	if g.burst > 0 && len(sync) > 0 {
 		g.burst--
@@ -176,7 +185,7 @@ func RunCase(run *hx.Run, model *hx.Model, name string, rnd *hx.Rand, o Opts) *R
 	if o.Shutdown {
 		shutdownAt = rnd.Intn(o.Steps)
 	}
-	for i := 0; i < o.Steps && !r.Failed; i++ {
+	for i := 0; i < o.Steps && !r.Failed && !r.drained; i++ {
 		if i == shutdownAt {
 			r.Step("shutdown")
 			g.forks(r, rnd)
@@ -208,8 +217,15 @@ func RunCase(run *hx.Run, model *hx.Model, name string, rnd *hx.Rand, o Opts) *R
 			g.forks(r, rnd)
 		}
 	}
-	if o.Shutdown && !r.Failed {
-		r.FinishShutdown(func() { g.forks(r, rnd) })
+	if o.Shutdown && !r.Failed && !r.drained {
+		r.FinishShutdown(func() { g.forks(r, rnd) }, func() []string {
+			if g.windowPut || !rnd.Chance(1, 2) {
+				return nil
+			}
+			g.windowPut = true
+			op, obj, size := g.newPut(r)
+			return []string{fmt.Sprintf("put.begin %d %d %d", op, obj, size), fmt.Sprintf("put.copy %d", op), fmt.Sprintf("put.end %d", op)}
+		})
 	}
 	r.St.Kill()
 	return r
@@ -217,8 +233,8 @@ func RunCase(run *hx.Run, model *hx.Model, name string, rnd *hx.Rand, o Opts) *R
 
 // FinishShutdown drives the syncer until ProcessBlockPut has returned false, then restarts from the
 // medium as the operating system holds it: everything resolvable at the end must be readable.
-func (r *Runner) FinishShutdown(after func()) {
-	for i := 0; i < 200 && r.g1pc != "finished" && !r.Failed; i++ {
+func (r *Runner) FinishShutdown(after func(), window func() []string) {
+	for i := 0; i < 200 && r.g1pc != "finished" && !r.Failed && !r.drained; i++ {
 		var next string
 		for _, e := range r.Enabled() {
 			if e == "sync.fail" || e == "sw.fail" || e == "shutdown" {
@@ -231,10 +247,17 @@ func (r *Runner) FinishShutdown(after func()) {
 			r.fail("oracle", "graceful shutdown does not complete", fmt.Sprintf("g1 %s", r.g1pc))
 			return
 		}
+		if next == "sync.end" && !r.g1final && window != nil {
+			// the store still accepts uploads during the first data sync of the shutdown
+			for _, l := range window() {
+				r.Step(l)
+				after()
+			}
+		}
 		r.Step(next)
 		after()
 	}
-	if r.Failed {
+	if r.Failed || r.drained {
 		return
 	}
 	if r.g1pc != "finished" {
